@@ -42,7 +42,7 @@ def _dump(strategy):
                                                        for n, v in m.positions.items()}}
         else:
             pos[k.name] = {f"{p.lower_tick}:{p.upper_tick}": [str(v.liquidity), str(v.pending_amount0), str(v.pending_amount1)] for p, v in m.positions.items()}
-    rec = {"tag": strategy.tag, "pid": os.getpid(), "index": [str(i) for i in df.index], "rows": rows,
+    rec = {"tag": strategy.tag, "pid": os.getpid(), "index": [str(i) for i in df.index], "columns": [str(c) for c in df.columns], "rows": rows,
            "actions": [[str(a.timestamp), repr(a)] for a in strategy.actions],
            "wallet": {k.name: str(v.balance) for k, v in strategy.broker.assets.items()}, "positions": pos}
     with open(os.path.join(out_dir, f"{strategy.tag}.json"), "w") as f:
@@ -187,7 +187,47 @@ def _define():
         def finalize(self):
             _dump(self)
 
-    return {"keep": Keep, "idle": Idle, "trader": Trader, "trig": Triggered, "obuy": OptBuyer, "obuy2": OptBuyer2, "oquery": OptQuery}
+    class Signal(Strategy):
+        """publishes its own indicator column under a fixed name (a moving average whose window is the strategy's parameter) and trades on it"""
+        window = 2
+
+        def __init__(self, tag):
+            super().__init__()
+            self.tag = tag
+
+        def initialize(self):
+            m = list(self.broker.markets.values())[0]
+            self.add_column(m, "signal", m.data["closeTick"].rolling(self.window, min_periods=1).mean())
+
+        def on_bar(self, snapshot):
+            m = list(self.broker.markets.values())[0]
+            row = snapshot.market_status[m.market_info]
+            if row["closeTick"] > row["signal"]:
+                m.buy(Decimal("0.2"))
+            elif snapshot.row_id > 0:
+                m.sell(Decimal("0.1"))
+
+        def finalize(self):
+            _dump(self)
+
+    class Signal3(Signal):
+        window = 3
+
+    class Buyer(Strategy):
+        """starts with the quote token only and buys the other pool token later"""
+
+        def __init__(self, tag):
+            super().__init__()
+            self.tag = tag
+
+        def on_bar(self, snapshot):
+            if snapshot.row_id == 2:
+                list(self.broker.markets.values())[0].buy(Decimal("0.5"))
+
+        def finalize(self):
+            _dump(self)
+
+    return {"sig2": Signal, "sig3": Signal3, "buyer": Buyer, "keep": Keep, "idle": Idle, "trader": Trader, "trig": Triggered, "obuy": OptBuyer, "obuy2": OptBuyer2, "oquery": OptQuery}
 
 
 STRATEGY_CLASSES = None
@@ -238,7 +278,10 @@ def make_setup(mix):
         markets.append(UniLpMarket(MarketInfo("uni_b"), pool_b))
         data[markets[1].market_info] = uni.prepared(raw_b, pool_b)
     prices = get_price_from_data(data_a, pool_a)
-    cfg = StrategyConfig(assets={uni.USDC: Decimal(20000), uni.WETH: Decimal(10)}, markets=markets)
+    assets = {uni.USDC: Decimal(20000), uni.WETH: Decimal(10)}
+    if mix == "quote-funded":  # the configuration funds only one of the pool's two tokens
+        assets = {uni.USDC: Decimal(20000)}
+    cfg = StrategyConfig(assets=assets, markets=markets)
     return cfg, BacktestData(data, prices), BacktestConfig()
 
 
@@ -398,7 +441,7 @@ def solo(mix, kind):
     return _SOLO[key]
 
 
-FIELDS = ("index", "rows", "actions", "wallet", "positions")
+FIELDS = ("index", "columns", "rows", "actions", "wallet", "positions")
 
 
 def compare(part, case, res, kinds, mix):
@@ -511,6 +554,11 @@ def main(run: Run):
     for s in osels:
         # the hourly option book lives in the shared data frame as nested lists: a fill or a quote by one strategy must not reach the others
         jobs.append((run.seed, "options", tuple(s), run.thorough))
+    # strategies that publish an indicator column of the same name with different contents (a parameter sweep), and a configuration that funds one pool token only
+    for s in [("sig2", "sig3"), ("sig3", "sig2"), ("sig2", "sig2", "sig3"), ("sig3", "idle", "sig2"), ("sig2",), ("sig3",)]:
+        jobs.append((run.seed, "one-pool", s, run.thorough))
+    for s in [("buyer",), ("buyer", "buyer"), ("idle", "buyer"), ("buyer", "idle", "buyer")]:
+        jobs.append((run.seed, "quote-funded", s, run.thorough))
     for mix in mixes:
         for s in sels:
             if mix == "two-pools" and not run.thorough and len(s) == 3 and s[0] not in ("keep", "trig"):
